@@ -321,7 +321,7 @@ class Module:
             inner = txt[txt.index('(') + 1: txt.rindex(')')]
             a = inner.rsplit(' to ', 1)[0]
             ty2, v2 = s.typed(a); v = s.const(ty2, v2)
-            return ('ptrint', v)
+            return v      # pointer carried as integer (only compared, masked for alignment, or converted back)
         if t.k == 'struct' and (txt.startswith('{') or txt.startswith('<{')):
             body = txt.strip()
             body = body[2:-2] if body.startswith('<{') else body[1:-1]
